@@ -16,6 +16,8 @@ every collection (entry of the next allocation) and at the end of the run:
      garbage, and vectors owned by a fiber grow once)
   6. under the shipped byte threshold policy next_gc == 2 x live bytes after every collection
   7. when the VM is dropped every block has been released exactly once (arena empty)
+  8. a program that ends normally leaves no temporary root behind: the number of temporary roots at the end of
+     the run equals the number right after VM start-up (natives push and pop them in pairs, also on error paths)
 """
 import copy
 
@@ -42,6 +44,9 @@ GARBAGE = [
     "let boxed = 0; let inc = || { boxed = boxed + 1; boxed }; inc(); inc();",
     "let sorted = [3, 1, 2].sort(|a, b| { let t = [a, b]; a - b });",
     "class Local { init() { self.v = [1]; } get() { self.v } } Local().get();",
+    "try { [1, 2, 3].iter().reduce([i], |acc, x| { if x == 2 { raise Error('in reduce'); } [acc, x] }); } catch e: Error { let m = e.message; }",
+    "try { [3, 1, 2].iter().map(|x| [x]).filter(|x| { if x[0] == 1 { raise Error('in filter'); } true }).list(); } catch e: Error { let m = e.message; }",
+    "try { [[1], [2]].iter().each(|x| { x.push(i); [][1]; }); } catch e: IndexError { let m = e.message; }",
 ]
 
 CHANNEL_GARBAGE = "let ch = chan(2); ch <- [i, 'payload']; ch <- [i];"
@@ -112,6 +117,9 @@ class C20(Check):
         self.programs = corpus.load()
         self.the_plan = self.plan(ctx.tier)
         self.startup = self.startup_probe(ctx)
+        probe = ctx.run({"id": "roots", "files": {"/sim/main.lay": "nil;"}, "main": "/sim/main.lay", "gc": schedules.never(),
+                         "final_gc": True})
+        self.baseline_roots = (probe.get("final") or {}).get("temp_roots")
 
     def make(self, ctx, index):
         entry = self.the_plan[index]
@@ -119,7 +127,7 @@ class C20(Check):
         if entry[0] == "steady":
             kept = rng.randint(0, 12)
             return {"kind": "steady", "seed": rng.getrandbits(48), "kept": kept, "delta": rng.randint(1, 5),
-                    "uniq": rng.randint(0, 8), "phases": rng.randint(30, 60),
+                    "uniq": rng.randint(0, 8), "phases": rng.randint(90, 140),
                     "nursery": rng.choice([None, 2, 8, 64]), "arena": schedules.random_policy(rng, 0.5),
                     "channels": False, "label": "churn-loop"}
         if entry[0] == "books":
@@ -162,6 +170,12 @@ class C20(Check):
             else:
                 clause = "owned blocks and live heap blocks differ"
             problems.append((clause, message))
+        final = result.get("final")
+        if (final and self.baseline_roots is not None and result["vmexit"] == "ok" and not core.host_failure(result)
+                and final["temp_roots"] != self.baseline_roots):
+            problems.append(("temporary roots left behind by a program that ended normally",
+                             "%d temporary roots at the end of the run, %d right after start-up" % (
+                                 final["temp_roots"], self.baseline_roots)))
         leak = (result.get("arena") or {}).get("leak")
         if leak is not None and not core.host_failure(result) and leak["blocks"] != 0:
             problems.append(("blocks still allocated after the VM was dropped",
@@ -258,7 +272,7 @@ class C20(Check):
         counters["vm_instructions"] = result["steps"]
         # the last mark is '#end', after the loop
         loop = phases[2:-1]
-        if len(loop) >= 24:
+        if len(loop) >= 60:
             outcome["signatures"].append("steady|%x|%d|%s" % (case["seed"], case["kept"], schedules.hash_points(result["fired"])))
             # Bounded memory: the conservative stack scan, the last caught error and the inline caches retain a
             # bounded, fluctuating amount of floating garbage, so phases are not compared for equality. A leak of
@@ -272,7 +286,11 @@ class C20(Check):
                 late = min(phase[key] for phase in loop[-4:])
                 # sustained: it rose in the first part and again in the second part (a one-off capacity
                 # growth of a fiber stack or handler vector, or 'i' gaining a digit, rises once)
-                if middle_low - early >= unit * (third - 4) / 2.0 and late - middle_high >= unit * (len(loop) - third - 8) / 2.0:
+                # the bounded fluctuation measured on the unchanged tree is a few blocks / a few hundred bytes, so a rise
+                # only counts when it is also larger than that floor
+                floor = 8 * unit if unit == 1 else 640
+                if (middle_low - early >= max(floor, unit * (third - 4) / 2.0)
+                        and late - middle_high >= max(floor, unit * (len(loop) - third - 8) / 2.0)):
                     problems.append(("live heap grows in a loop that keeps a bounded set alive",
                                      "%s after the full collection at each phase: %s" % (key, [phase[key] for phase in loop])))
                     break
@@ -298,7 +316,7 @@ class C20(Check):
                 yield candidate
             return
         if case["kind"] == "steady":
-            for key, low in (("kept", 0), ("uniq", 0), ("phases", 30)):
+            for key, low in (("kept", 0), ("uniq", 0), ("phases", 90)):
                 if case[key] > low:
                     candidate = copy.deepcopy(case)
                     candidate[key] = low
